@@ -231,10 +231,43 @@ def judgeExtra2 (hNew hOld : HCtx) (op res : Array String) (dump : Option St) : 
   let r0 := res.getD 0 ""
   let s := hOld.cur
   if hOld.tainted then (hNew, []) else
-  if r0 == "timeout" || r0 == "panic" || r0 == "skip" || r0 == "unsupported" || r0 == "dead" then (hNew, []) else
+  if r0 == "timeout" || (r0 == "panic" && name != "consplit") || r0 == "skip" || r0 == "unsupported" || r0 == "dead" then (hNew, []) else
   let f32 := hOld.scalar == "f32"
   match name with
   | "consplit" =>
+    if r0 == "panic" then
+      -- an undocumented panic is reported by the generic judge (C07, C13); here only the
+      -- conditioning features of the request are added, as a separate clause, so that a recorded
+      -- finding can name the regime (same definitions as below, on the state before the call)
+      match parseNat (op.getD 1 ""), parseNat (op.getD 2 "") with
+      | some a, some b =>
+        if a < s.nV && b < s.nV then
+          let pa := s.P a
+          let pb := s.P b
+          let ext := s.extent [pa, pb]
+          let eps := ext / 2 ^ (if f32 then 16 else 40)
+          let close := fun (a c : Pt) => decide ((a.x - c.x).natAbs ≤ eps.natAbs) && decide ((a.y - c.y).natAbs ≤ eps.natAbs)
+          let nearVertex := (List.range s.nV).any fun i => (List.range i).any fun j => close (s.P i) (s.P j)
+          let dab : Pt := ⟨pb.x - pa.x, pb.y - pa.y⟩
+          let nab := dab.x * dab.x + dab.y * dab.y
+          let boxOverlap := fun (c : Pt × Pt) =>
+            decide (min c.1.x c.2.x ≤ max pa.x pb.x) && decide (min pa.x pb.x ≤ max c.1.x c.2.x) &&
+            decide (min c.1.y c.2.y ≤ max pa.y pb.y) && decide (min pa.y pb.y ≤ max c.1.y c.2.y)
+          let nearParallel := hOld.abs.cons.any fun c =>
+            let dc : Pt := ⟨c.2.x - c.1.x, c.2.y - c.1.y⟩
+            let cr := dab.x * dc.y - dc.x * dab.y
+            let ncd := dc.x * dc.x + dc.y * dc.y
+            boxOverlap c && decide (cr * cr * 2 ^ (if f32 then 24 else 60) ≤ nab * ncd)
+          let nearLine := (List.range s.nV).any fun i =>
+            let v := s.P i
+            let o := orient pa pb v
+            i != a && i != b && o != 0 && decide (o * o ≤ eps * eps * nab) &&
+              decide (0 ≤ dotFrom pa pb v) && decide (dotFrom pa pb v ≤ nab)
+          (hNew, chk (!(nearVertex || nearParallel || nearLine)) "C13" "split-panicked-ill-conditioned"
+            (fun _ => s!"nearVertex={if nearVertex then 1 else 0} nearParallel={if nearParallel then 1 else 0} nearLine={if nearLine then 1 else 0}"))
+        else (hNew, [])
+      | _, _ => (hNew, [])
+    else
     match parseNat (op.getD 1 ""), parseNat (op.getD 2 ""), dump with
     | some a, some b, some d =>
       let (chainToks, rest) := splitBar (res.toList.drop 1)
